@@ -2,11 +2,11 @@
 from __future__ import annotations
 import math
 import numpy as np
-import impl, gen, oracle
+import impl, gen, oracle, forms
 from impl import quiet, Metric
 from common import close, score_to_float
 
-RULE = ("through the evaluator with metric lists in which a metric is named twice before ASSD; pairs of non-empty binary masks in 1-3-D: single voxels, one-voxel-thick lines/sheets, rings/shells with enclosed "
+RULE = ("the same masks as views of one buffer (channels-last, even/odd, adjacent windows), read-only, as an ndarray subclass, and with an axis of length one; through the evaluator with metric lists in which a metric is named twice before ASSD; pairs of non-empty binary masks in 1-3-D: single voxels, one-voxel-thick lines/sheets, rings/shells with enclosed "
         "cavities, objects on the array border, nested and disjoint objects, far-apart objects (offsets up to 600, and single voxels 50000-70000 apart, along one axis); every case also embedded at a random offset in a larger array and cropped tight; with and without "
         "label selection; non-trivial = the two borders differ and an object is thin, has a cavity, or touches the array border")
 
@@ -97,6 +97,11 @@ def run_cases(ctx, n, tag):
     rng = ctx.rng
     for i in range(n):
         ref, pred = gen_masks(rng)
+        if ref.ndim <= 2 and rng.random() < 0.15:
+            # the same masks stored with an axis of length one (a single slice of a volume, a column vector)
+            ax = rng.randint(0, ref.ndim)
+            ref, pred = np.expand_dims(ref, ax), np.expand_dims(pred, ax)
+            ctx.count("singleton_axis")
         v = one_case(ctx, ref, pred, f"{tag}{i}")
         if v is None:
             continue
@@ -110,6 +115,19 @@ def run_cases(ctx, n, tag):
                     inp = {"shape": list(arrs[0].shape), "ref": gen.arr_json(arrs[0]), "pred": gen.arr_json(arrs[1]), "sel": None,
                            "base_shape": list(ref.shape), "base_ref": gen.arr_json(ref), "base_pred": gen.arr_json(pred)}
                     ctx.violation(f"ASSD changes under {name}: {v} vs {w}", inp, impl=[v, w], key={"kind": "assd-embedding"})
+        if rng.random() < 0.25:
+            # other forms of the same two masks: views of one buffer, read-only arrays, an ndarray subclass
+            for name, r2, p2 in forms.pair_forms(ref, pred):
+                try:
+                    w = assd_impl(r2, p2)
+                except Exception as e:
+                    w = "ERR:" + type(e).__name__
+                ctx.count("form." + name)
+                if isinstance(w, str) or not close(v, w):
+                    inp = {"shape": list(ref.shape), "ref": gen.arr_json(ref), "pred": gen.arr_json(pred), "sel": None, "form": name, "src": f"{tag}{i}.{name}"}
+                    ctx.case(inp, True)
+                    ctx.violation(f"ASSD of the same two masks passed as {name.replace('_', ' ')} views/copies is {w}, but {v} for separately allocated arrays",
+                                  inp, impl=[v, w], key={"kind": "assd-form"})
         if rng.random() < 0.3:
             lr, lp = ref * rng.choice([1, 3]), pred * rng.choice([2, 5])
             extra = np.zeros_like(lp)
@@ -209,6 +227,19 @@ def search(ctx):
 
 def replay(ctx, rec):
     i = rec["input"]
+    if i.get("form"):
+        ref = np.array(i["ref"], dtype=np.uint8).reshape(i["shape"])
+        pred = np.array(i["pred"], dtype=np.uint8).reshape(i["shape"])
+        v = assd_impl(ref, pred)
+        ctx.case(i, True)
+        for name, r2, p2 in forms.pair_forms(ref, pred, which=[i["form"]]):
+            try:
+                w = assd_impl(r2, p2)
+            except Exception as e:
+                w = "ERR:" + type(e).__name__
+            if isinstance(w, str) or not close(v, w):
+                ctx.violation(f"ASSD depends on the form of the input ({name}): {w} vs {v}", i, key={"kind": "assd-form"})
+        return
     if i.get("pipeline"):
         import evalutil as E
         dt = np.dtype(i["dtype"])
